@@ -475,6 +475,14 @@ def finish(ctx, manifest_entry, res, trusted_base, assumptions, level, checker_c
 
 
 # -------------------------------------------------------------------- grouped line protocols
+# Time lost to harness processes that died (crash, watchdog, CPU limit) in this run.  A change that makes most inputs hang would
+# otherwise cost one watchdog period per input: once DEATH_BUDGET_S seconds have gone into dying processes the remaining
+# lines are answered "DIED skipped ..." (the deaths seen so far are violations with replays already).  Crashes on the unchanged
+# tree (recorded findings) die within milliseconds and never come near the budget.
+DEATH_TIME = [0.0]
+DEATH_BUDGET_S = float(os.environ.get("VERIF_DEATH_BUDGET_S", "900"))
+
+
 def run_grouped(binary, groups, timeout=1800, max_restarts=40, env=None, cpu=None):
     """groups: list of (header_line, [op lines]).  Feeds header + ops to `binary`, which answers one line per input
     line.  If the process dies (the harnesses print 'CRASH <signal>' from their signal handler) the crashing line gets
@@ -486,12 +494,19 @@ def run_grouped(binary, groups, timeout=1800, max_restarts=40, env=None, cpu=Non
         start = 0
         restarts = 0
         while True:
+            if DEATH_TIME[0] > DEATH_BUDGET_S:
+                hdr_ans = hdr_ans or "DIED skipped (time budget for dying processes exhausted)"
+                answers += ["DIED skipped (time budget for dying processes exhausted)"] * (len(ops) - start)
+                break
             text = hdr + "\n" + "\n".join(ops[start:]) + "\n"
+            t_run = time.time()
             rc, out, err = sh_out([binary], input=text, timeout=timeout, env=env, cpu=cpu)
+            t_run = time.time() - t_run
             lines = out.split("\n")
             if lines and lines[-1] == "":
                 lines.pop()
             if not lines:
+                DEATH_TIME[0] += t_run
                 hdr_ans = hdr_ans or ("DIED rc=%d %s" % (rc, err[-200:].replace("\n", " ")))
                 answers += ["DIED"] * (len(ops) - start)
                 break
@@ -503,6 +518,7 @@ def run_grouped(binary, groups, timeout=1800, max_restarts=40, env=None, cpu=Non
                 answers += got[:need]
                 break
             # died early
+            DEATH_TIME[0] += t_run
             if got and got[-1].startswith("CRASH"):
                 answers += got
             else:
